@@ -84,6 +84,39 @@ Proof. exact error_example. Qed.
 Theorem C13_add_example : add_example_stmt.
 Proof. exact add_example. Qed.
 
+(* `unset <obj>.http.<pre>*;`: EXACTLY the headers of that object whose name starts with the prefix, compared
+   case-insensitively, change - each becomes not set together with its sub-fields; every other name (other
+   headers, other objects, locals, ctx variables, re.group.N) keeps its value. *)
+Theorem C13_unset_wildcard_frame :
+  forall Os P n fn o pre σ out σ',
+    exec repaired Os P n fn (SUnsetWild o pre) σ = OK (out, σ') ->
+    out = ONorm /\
+    (forall x, match hdr_of x with Some k => wild_hit o pre k = false | None => True end -> read σ' x = read σ x) /\
+    (forall h, wild_hit o pre (o, h) = true ->
+       read σ' (NHeader o h) = Some (VStr [] true false) /\
+       forall k, read σ' (NField o h k) = Some (field_of_text [] k)).
+Proof. exact unset_wildcard_frame. Qed.
+
+Theorem C13_unset_wildcard_case_insensitive :
+  forall Os P n fn o p q σ,
+    map fold_byte p = map fold_byte q ->
+    exec repaired Os P n fn (SUnsetWild o p) σ = exec repaired Os P n fn (SUnsetWild o q) σ.
+Proof. exact unset_wildcard_case_insensitive. Qed.
+
+Theorem C13_unset_wildcard_example : unset_wildcard_example_stmt.
+Proof. exact unset_wildcard_example. Qed.
+
+(* `synthetic e;`: only the response-body cell changes (and re.group.N when e contains a match). *)
+Theorem C13_synthetic_frame :
+  forall Os P n fn gb e σ out σ',
+    wf σ -> pure e = true ->
+    exec repaired Os P n fn (SSynthetic gb e) σ = OK (out, σ') ->
+    out = ONorm /\ forall x, x <> NGlobal gb -> is_group x = false -> read σ' x = read σ x.
+Proof. exact synthetic_frame. Qed.
+
+Theorem C13_synthetic_example : synthetic_example_stmt.
+Proof. exact synthetic_example. Qed.
+
 (* `unset T` / `remove T` on a header or a sub-field: the same frame *)
 Theorem C13_unset_frame :
   forall Os P n fn T σ o σ',
@@ -237,6 +270,19 @@ Theorem C13_writable_example :
   In ("obj.response", "ObjectResponse")%string (scope_cells "error").
 Proof. exact writable_example. Qed.
 
+(* TIME / IP / BACKEND / ACL are in the model as OPAQUE cells ([TOpaque k], [VOpaque k payload]): values the
+   model copies and never inspects.  C13_args_by_value, C13_params_fresh, C13_call_frame, C13_set_frame ...
+   quantify over every type and value, so they now speak about all ten types of local.  Witnesses: a BACKEND
+   local copied and passed to a procedure that overwrites its parameter keeps its value - and before the repair
+   of parameter passing it did not (an opaque argument never needs a conversion, so the callee had the caller's cell). *)
+Theorem C13_opaque_example : opaque_example_stmt.
+Proof. exact opaque_example. Qed.
+
+Theorem C13_opaque_param_needs_copy :
+  exists r σ', call original std_ops prog_fop 10 sub_fop [0%nat] σ_op = OK (r, σ') /\
+               read σ' (NLocal 0) <> read σ_op (NLocal 0).
+Proof. exact param_alias_opaque_refutes. Qed.
+
 (* witnesses: the analysis distinguishes writers *)
 Theorem C13_header_set_effects_example :
   effects_of "header.set"%string = Some header_maps /\ ~ effect_free "header.set"%string.
@@ -275,3 +321,10 @@ Print Assumptions C13_silent_statement_kinds.
 Print Assumptions C13_header_set_effects_example.
 Print Assumptions C13_writable_cells_distinct.
 Print Assumptions C13_writable_example.
+Print Assumptions C13_unset_wildcard_frame.
+Print Assumptions C13_unset_wildcard_case_insensitive.
+Print Assumptions C13_unset_wildcard_example.
+Print Assumptions C13_synthetic_frame.
+Print Assumptions C13_synthetic_example.
+Print Assumptions C13_opaque_example.
+Print Assumptions C13_opaque_param_needs_copy.
